@@ -73,6 +73,7 @@ PROPS["C14"] = {
                   "largest and out-of-segment read requests. "
                   "Part (H): TCPMuxDefault.handleConn is fed a re-chunked stream (first STUN frame + packets; a third with the first frame coalesced with what follows; hostile first frames): the packet conn of that ufrag must deliver the first message and every following packet in order. "
                   "A third of the tcpPacketConn and handleConn streams have late-arrival offsets: a reader with a read deadline armed gets one timeout error there (as on a real socket), one without notices nothing. "
+                  "Half of the part-(H) histories accept a second connection before the first message of the first one is read; a quarter of the write-side histories use a 9-39 kB write buffer behind a stalled peer (WriteTo has to refuse packets; what it accepted reaches the wire in order); one loopback session in ten ends with an oversized (8193..65535 byte) write to activeTCPConn: the peer sees the stream end, never a frame. "
                   "One loopback session in forty stalls for 1.25 s (thorough: up to 3.5 s) in the middle of a frame towards activeTCPConn.",
     "level_note": "Sampled packet lists and partitions (not all partitions of all streams). The loopback part depends on kernel TCP; a stalled loopback session is counted inconclusive, never a violation - "
                   "except when the state of the stream decides: the peer has sent a well-formed stream completely and still holds the connection open, nothing is unsent or unread on either socket (TIOCOUTQ/TIOCINQ) "
@@ -234,7 +235,7 @@ PROPS["C12"] = {
     "parts": [part("TestVerifC12", race=True, q=16, t=16, tq=900)],
     "level": "exploration",
     "engine": "E5 muxmon",
-    "technique": "model-based runtime monitor: random operation sequences on the real UDPMuxDefault over a fake shared socket, compared after every operation with a reference routing table (per-connection FIFO, address bindings); concurrent histories under the race detector with a schedule-independent oracle",
+    "technique": "model-based runtime monitor: random operation sequences on the real UDPMuxDefault over a fake shared socket, compared after every operation with a reference routing table (per-connection FIFO, address bindings, the harness's own address canonicalisation); concurrent histories under the race detector with a schedule-independent oracle",
     "level_text": "Sequences of 20-80 operations over 2-4 ufrags (incl. the empty one) and 8 sources (IPv4, IPv4-mapped IPv6, IPv6, link-local with zone): GetConn (both families on an unspecified-address mux, wrong address), WriteTo, inbound "
                   "(non-STUN, STUN with five USERNAME forms, without USERNAME, undecodable), RemoveConnByUfrag, handle Close, mux Close; both the net.PacketConn and the netip.AddrPort I/O flavours of the handle. "
                   "Concurrent: readers, writers, feeder, removers and closers with seeded pauses at hook H2. One history in three goes through UniversalUDPMuxDefault (inbound XOR-MAPPED-ADDRESS responses included); "
@@ -300,7 +301,10 @@ PROPS["C08"] = {
     "engine": "E4 lifecycle",
     "technique": "crash-point style fault enumeration of Close over a scripted agent lifetime with a stuck detector (two identical goroutine dumps) as the verdict, parked-caller release check, post-close API sweep (closed error, no datagram, no callback) and goroutine census by creation site; race detector on",
     "level_text": "Close / GracefulClose / Conn.Close injected at 9 positions (new, gathering with a STUN query outstanding, gathered, blocking Dial parked, checking, connected with traffic in flight, restarted, re-gathering, re-gathering cancelled by a further Restart) x 3 close kinds x {API goroutine, inside a callback} enumerated; "
-                  "closers 1-4, faults {none, socket write blocks until deadline or close, socket Close returns an error}, callers parked in Conn.Read / AwaitConnect / Dial sampled; repeated closes; 19 public calls after Close.",
+                  "closers 1-4, faults {none, socket write blocks until deadline or close, socket Close returns an error}, callers parked in Conn.Read / AwaitConnect / Dial sampled; repeated closes; 19 public calls after Close. "
+                  "Directed scenarios on top: a candidate handed over while Close is in its pre-stop phase, a cancelled gather cycle held in a TURN allocation, an active ICE-TCP dial into a black hole, "
+                  "Close during a TLS / DTLS handshake with a TURNS server that accepted and stays silent (loopback), Close while a connectivity check is blocked in the write of a shared UDP mux socket (with and without AddrPort I/O), "
+                  "Close with a passive ICE-TCP candidate whose receive queue is full (real TCP mux on loopback, peer sent 8-15 packets nobody read).",
     "level_note": "'Bounded' is relative to the STUN gather timeout (25 ms here): it is the only timer pion/ice uses to bound I/O it cannot abort. A close that is slow but still moving is inconclusive, only a stuck one is a violation. Handlers that never return are not exercised.",
     "rule": "case = one lifetime with one injected close; distinct_nontrivial counts distinct (position, close kind, origin, #closers, fault, parked callers) plans executed",
     "assumptions": ["goroutines are attributed to the agent by their creation site (a go statement in a non-harness file of the module)"],
